@@ -184,6 +184,8 @@ Proof.
     destruct (mapM_fst (fun sib => n1 sib v ep) _ _ _ (fun x => Hn x v ep) Em) as (scrs1 & Em1 & Hfs).
     rewrite Em1. simpl. rewrite existsb_fst, Hfs, <- existsb_fst. exact Hb.
   - auto.
+  - auto.
+  - auto.
 Qed.
 
 (* ---------------- element-wise transfer of relations through the plumbing ---------------- *)
